@@ -114,6 +114,33 @@ theorem hash_separation_fails_on_a_witness :
   have := h.1 _ (List.mem_cons_self) _ (List.mem_cons_of_mem _ List.mem_cons_self) hc
   revert this; decide
 
+/-! ### the nominated names: a Vary value is a list of field names, split at EVERY comma (repair 8ea0896) -/
+
+theorem splitOnComma_comma (a b cur : Str) :
+    splitOnComma (a ++ ',' :: b) cur = splitOnComma a cur ++ splitOnComma b [] := by
+  induction a generalizing cur with
+  | nil => simp [splitOnComma]
+  | cons c a ih =>
+    by_cases hc : c = ','
+    · subst hc; simp [splitOnComma, ih]
+    · have h1 : ∀ r cur, splitOnComma (c :: r) cur = splitOnComma r (c :: cur) := by
+        intro r cur; rw [splitOnComma]; exact fun h => absurd h hc
+      simp [h1, ih]
+
+/-- the names nominated by `a , b` are the names of `a` followed by the names of `b`, whatever bytes `a` and `b`
+    hold: no quote, backslash or other byte in one member can hide the members after it from the key
+    (the pinned tree split Vary with the quoted-string aware splitter: `Vary: Accept", X-A` nominated ONE name) -/
+theorem vary_names_split_at_every_comma (a b : Str) : fieldNames (a ++ ',' :: b) = fieldNames a ++ fieldNames b := by
+  simp [fieldNames, splitOnComma_comma]
+
+/-- … and so a "*" member is seen wherever it stands -/
+theorem star_member_is_seen_anywhere (a b : Str) :
+    varyHasWildcard (a ++ ',' :: b) = (varyHasWildcard a || varyHasWildcard b) := by
+  simp [varyHasWildcard, vary_names_split_at_every_comma]
+
+example : fieldNames (str% "Accept\", X-A") = [str% "Accept\"", str% "X-A"] := by decide
+example : varyHasWildcard (str% "\"x, *") = true := by decide
+
 /-- Regression examples (tests): the pinned tree's collision, a "*" list member, two Vary lines. -/
 example : makeVaryKey (str% "k") [(str% "X-A", str% "1"), (str% "X-B", str% "2")] ≠
           makeVaryKey (str% "k") [(str% "X-A", str% "1X-B2")] := by decide
